@@ -5,6 +5,9 @@
 mod util;
 mod d_base64;
 mod d_pool;
+mod d_misc;
+mod http;
+mod d_serve;
 
 fn main() {
     let args: Vec<String> = std::env::args().collect();
@@ -17,6 +20,9 @@ fn main() {
     let rc = match args[1].as_str() {
         "base64" => d_base64::run(&opts),
         "pool" => d_pool::run(&opts),
+        "mime" => d_misc::mime(&opts),
+        "serve" => d_serve::run(&opts),
+        "random-worlds" => d_serve::random_worlds(&opts),
         other => {
             eprintln!("unknown domain {}", other);
             2
